@@ -369,9 +369,7 @@ func c22Report(r *vkit.Run, st *c22Stack, ds *c22Dataset, q *c22Query, dsNo, qNo
 	mq := q
 	if class != "error" || true {
 		// query minimisation is cheap (same shards); after a dozen violations only classify
-		if r.Violations() < 12 && c22Reported < 40 {
-			mq = c22MinimiseQuery(st, ds.Model, q, class)
-		}
+		mq = c22MinimiseQuery(st, ds.Model, q, class)
 		c22Reported++
 		w.MinQuery = mq.String()
 		w.Shards = c22WitSpecs(ds.Specs)
@@ -411,7 +409,7 @@ func c22Report(r *vkit.Run, st *c22Stack, ds *c22Dataset, q *c22Query, dsNo, qNo
 		class = "fill_linear_negative_time"
 		w.Class = class
 	}
-	if (class == "row_value" || class == "row_count") && mq.Fill == 'x' && mq.Limit > 0 && len(mq.Cols) > 1 {
+	if (class == "row_value" || class == "row_count" || class == "row_time") && mq.Fill == 'x' && mq.Limit > 0 && len(mq.Cols) > 1 {
 		// every column alone agrees with the reference, only the joint LIMIT/OFFSET result differs
 		alone := true
 		for i := range mq.Cols {
